@@ -426,3 +426,37 @@ func LoadFuzzCase(path string) (target string, args []any, ok bool, err error) {
 	args, err = FuzzArgs(fc.Corpus)
 	return fc.Target, args, true, err
 }
+
+// ---------------------------------------------------------------------------
+// Crash attribution: a property whose subject is "never crashes" records the
+// case it is about to run; if the test process dies (unrecoverable runtime
+// failure such as a stack overflow, or a panic on another goroutine) the
+// driver finds the file and reports that case.
+
+func (r *Recorder) currentPath() string {
+	dir := OutDir()
+	if dir == "" {
+		return ""
+	}
+	shard, _ := Shard()
+	return filepath.Join(dir, fmt.Sprintf("current-%s-%d.json", sanitize(r.test), shard))
+}
+
+// Begin stores the case that is about to be executed.
+func (r *Recorder) Begin(c any) {
+	p := r.currentPath()
+	if p == "" {
+		return
+	}
+	b, err := json.Marshal(failFile{Property: r.prop, Test: r.test, Error: "the test process died while running this case", Case: c})
+	if err == nil {
+		_ = os.WriteFile(p, b, 0o644)
+	}
+}
+
+// Done removes the marker written by Begin.
+func (r *Recorder) Done() {
+	if p := r.currentPath(); p != "" {
+		_ = os.Remove(p)
+	}
+}
